@@ -309,6 +309,22 @@ def gen_random(rng, count, unit=None):
                    ae=rng.random() < 0.5, pol=rng.randint(0, 2), votes=votes, n=n, prev=prev, caps=caps)
 
 
+def gen_equal_margins(rng, count):
+    """k parties with a_i whole Imperiali quotas plus the same remainder q/k each: the quota is exactly q, one seat too many is awarded
+    and all k margins are equal (1/k - no dyadic fraction for k = 3, 5, 6, 7): the withdrawal must report the tie, which arithmetic
+    in floats resolves silently"""
+    for _ in range(count):
+        k = rng.choice([3, 3, 5, 6, 7])
+        q0 = k * rng.choice([1, 2, 7, 41, 10 ** 25 + 7])
+        a = [rng.randint(0, 6) for _ in range(k)]
+        if sum(a) < 2:
+            a[0] += 2
+        votes = [[i + 1, q0 * a[i] + q0 // k] for i in range(k)]
+        rng.shuffle(votes)
+        yield dict(unit=rng.choice(['quota_distributor', 'largest_remainder']), quota=[7], ae=rng.random() < 0.5, pol=2, votes=votes,
+                   n=sum(a) - 1, prev=[], caps=[])
+
+
 def gen_boundary(rng, count):
     """votes on exact quota multiples, equal remainders at the cut, Imperiali over-award"""
     for _ in range(count):
@@ -500,6 +516,7 @@ def explore(ctx, widen=1):
     ctx.differential('quota-grid', grid + big, quota_model_line, quota_impl, nontrivial=lambda c: c['v'] > 2 ** 53)
     differential(ctx, 'random', gen_random(ctx.rng, ctx.n(2500, 30000) * widen))
     differential(ctx, 'boundary', gen_boundary(ctx.rng, ctx.n(800, 8000) * widen))
+    differential(ctx, 'equal-margins', gen_equal_margins(ctx.rng, ctx.n(300, 3000) * widen))
     differential(ctx, 'after-tie', gen_after_tie(ctx.rng, ctx.n(400, 4000) * widen))
     differential(ctx, 'caps', gen_caps(ctx.rng, ctx.n(1500, 15000) * widen))
 
